@@ -21,6 +21,8 @@ VARIANT_FLAGS = {
     'plain': ['-O1', '-g0'],
     'asan': ['-O1', '-g', '-fsanitize=address,undefined', '-fno-sanitize-recover=all', '-fno-omit-frame-pointer'],
     'tsan': ['-O1', '-g', '-fsanitize=thread'],
+    # development only (tools/coverage.py): line coverage of the repo's sources by the generated cases
+    'cov': ['-O0', '-g', '--coverage', '-DVERIF_COVERAGE'],
 }
 
 
@@ -89,7 +91,12 @@ def build_impl(variant='plain', driver='impl_driver.cpp', flexgen=False):
             os.utime(outdir)
             return exe, None
         os.makedirs(outdir, exist_ok=True)
-        scratch = tempfile.mkdtemp(prefix='theo-obj.', dir='/var/tmp')
+        if variant == 'cov':
+            scratch = os.path.join(outdir, 'obj-cov')       # objects, .gcno and .gcda stay beside the binary
+            shutil.rmtree(scratch, ignore_errors=True)
+            os.makedirs(scratch)
+        else:
+            scratch = tempfile.mkdtemp(prefix='theo-obj.', dir='/var/tmp')
         try:
             flags = ['-std=c++20', '-I' + REPO, '-I' + os.path.join(REPO, 'Compiler/include'), '-D' + GUARD,
                      '-w'] + VARIANT_FLAGS[variant]
@@ -112,6 +119,8 @@ def build_impl(variant='plain', driver='impl_driver.cpp', flexgen=False):
 
             def cc(src):
                 obj = os.path.join(scratch, hashlib.md5(src.encode()).hexdigest() + '.o')
+                if variant == 'cov':
+                    obj = os.path.join(scratch, os.path.basename(src).replace('.', '_') + '.o')
                 r = sh(['g++', '-x', 'c++'] + incl_first + flags + ['-c', src, '-o', obj])
                 return obj, r
 
@@ -125,7 +134,8 @@ def build_impl(variant='plain', driver='impl_driver.cpp', flexgen=False):
                 return None, r.stdout[-4000:]
             os.rename(exe + '.tmp', exe)
         finally:
-            shutil.rmtree(scratch, ignore_errors=True)
+            if variant != 'cov':
+                shutil.rmtree(scratch, ignore_errors=True)
         prune_cache()
     return exe, None
 
